@@ -22,7 +22,9 @@ FSM_GRAPH = {
     'ELECTION': {'OFF', 'SYNCHRONIZATION', 'DISTRIBUTION', 'SHUTTING_DOWN'},
     'DISTRIBUTION': {'OFF', 'ELECTION', 'OPERATION', 'RESTARTING', 'SHUTTING_DOWN'},
     'OPERATION': {'OFF', 'SYNCHRONIZATION', 'ELECTION', 'CONCILIATION', 'RESTARTING', 'SHUTTING_DOWN'},
-    'CONCILIATION': {'OFF', 'SYNCHRONIZATION', 'OPERATION', 'RESTARTING', 'SHUTTING_DOWN'},
+    # ELECTION: the statement lists the returns to OFF, SYNCHRONIZATION and ELECTION for the working states
+    # (see DESIGN.md, C02 and finding 19: the implementation's table lacked this edge and deadlocked)
+    'CONCILIATION': {'OFF', 'SYNCHRONIZATION', 'ELECTION', 'OPERATION', 'RESTARTING', 'SHUTTING_DOWN'},
     'RESTARTING': {'FINAL'},
     'SHUTTING_DOWN': {'FINAL'},
     'FINAL': set(),
